@@ -29,7 +29,9 @@ pub fn decode_set(bytes: &[u8]) -> OrSWotSet<NUM_SOURCES> {
     unsafe { rkyv::from_bytes_unchecked(&aligned).expect("decode set") }
 }
 
-async fn race(k: u64, seed: u64, maxdelay: u64) -> String {
+async fn race(k: u64, seed: u64, maxdelay: u64, names: u64) -> String {
+    // task i uses the keyspace `race<i % names>`: with names > 1 several FRESH keyspaces are first used at the same time
+    let ksname = move |i: u64| if names <= 1 { "race".to_string() } else { format!("race{}", i % names) };
     use datacake_eventual_consistency::verif::{ConsistencyService, GetState, PutPayload, ReplicationService};
     use datacake_rpc::{Handler, Request};
 
@@ -56,10 +58,10 @@ async fn race(k: u64, seed: u64, maxdelay: u64) -> String {
                 // incoming replication
                 let ts = clock.get_time().await;
                 let document = Document::new(i, ts, vec![i as u8]);
-                let req = Request::using_owned(PutPayload { keyspace: "race".to_string(), ctx: None, document, timestamp: ts }).await;
+                let req = Request::using_owned(PutPayload { keyspace: ksname(i), ctx: None, document, timestamp: ts }).await;
                 return consistency.on_message(req).await.is_ok();
             }
-            let ks = group.get_or_create_keyspace("race").await;
+            let ks = group.get_or_create_keyspace(&ksname(i)).await;
             for _ in 0..d2 {
                 tokio::task::yield_now().await;
             }
@@ -73,7 +75,7 @@ async fn race(k: u64, seed: u64, maxdelay: u64) -> String {
     // peers asking for the keyspace state while it is being used for the first time (they write nothing)
     let extras = lcg(&mut s) % 3;
     let mut extra_handles = Vec::new();
-    for _ in 0..extras {
+    for e in 0..extras {
         let d1 = lcg(&mut s) % (maxdelay + 1);
         let replication = replication.clone();
         let clock = clock.clone();
@@ -82,7 +84,7 @@ async fn race(k: u64, seed: u64, maxdelay: u64) -> String {
                 tokio::task::yield_now().await;
             }
             let ts = clock.get_time().await;
-            let req = Request::using_owned(GetState { keyspace: "race".to_string(), timestamp: ts }).await;
+            let req = Request::using_owned(GetState { keyspace: ksname(e), timestamp: ts }).await;
             let _ = replication.on_message(req).await;
         }));
     }
@@ -95,13 +97,18 @@ async fn race(k: u64, seed: u64, maxdelay: u64) -> String {
             acked.push(i as u64);
         }
     }
-    let ks = group.get_or_create_keyspace("race").await;
-    let bytes = ks.send(Serialize).await.expect("serialize");
-    let set = decode_set(&bytes);
-    let (live, _dead) = OrSWotSet::<NUM_SOURCES>::default().diff(&set);
-    let mut ids: Vec<u64> = live.iter().map(|p| p.0).collect();
+    // every keyspace that was used: what a fresh lookup finds under its name, and what storage holds for it
+    let mut ids: Vec<u64> = Vec::new();
+    let mut stored: Vec<u64> = Vec::new();
+    for n in 0..names.max(1).min(k.max(1)) {
+        let ks = group.get_or_create_keyspace(&ksname(n)).await;
+        let bytes = ks.send(Serialize).await.expect("serialize");
+        let set = decode_set(&bytes);
+        let (live, _dead) = OrSWotSet::<NUM_SOURCES>::default().diff(&set);
+        ids.extend(live.iter().map(|p| p.0));
+        stored.extend(store.iter_metadata(&ksname(n)).await.expect("meta").map(|m| m.0));
+    }
     ids.sort();
-    let mut stored: Vec<u64> = store.iter_metadata("race").await.expect("meta").map(|m| m.0).collect();
     stored.sort();
     let f = |v: &Vec<u64>| if v.is_empty() { "-".to_string() } else { v.iter().map(|x| x.to_string()).collect::<Vec<_>>().join(",") };
     format!("acked {} set {} stored {}", f(&acked), f(&ids), f(&stored))
@@ -169,7 +176,7 @@ impl Domain for GroupDomain {
     fn op(&mut self, t: &[&str]) -> String {
         match t[0] {
             "startup-race" => crate::rpc::runtime().block_on(startup_race()),
-            // race <k> <seed> <maxdelay> <threads>   (threads = 0: current_thread runtime)
+            // race <k> <seed> <maxdelay> <threads> [names]   (threads = 0: current_thread runtime; names: how many fresh keyspaces the tasks use)
             "race" => {
                 let (k, seed, maxdelay, threads) = (p_u64(t[1]), p_u64(t[2]), p_u64(t[3]), p_u64(t[4]));
                 let rt = if threads == 0 {
@@ -177,7 +184,8 @@ impl Domain for GroupDomain {
                 } else {
                     tokio::runtime::Builder::new_multi_thread().worker_threads(threads as usize).enable_all().build().unwrap()
                 };
-                let out = rt.block_on(race(k, seed, maxdelay));
+                let names = t.get(5).map(|x| p_u64(x)).unwrap_or(1);
+                let out = rt.block_on(race(k, seed, maxdelay, names));
                 rt.shutdown_background();
                 out
             },
